@@ -246,6 +246,13 @@ ENV_CORPUS = [
     # REP: the requester is gone before its queued request is received: recv fails, nothing changes
     {"k": "rep", "fam": "env", "peers": 2, "progs": [[["recv"], ["send", 51], ["recv"], ["send", 53]]],
      "sched": [["req", 0, [0, 31]], ["detach", 0]] + [["t", 0]] * 4 + [["req", 1, [0, 33]]] + [["t", 0]] * 4},
+    # REP: a peer that is NOT the requester detaches while the reply is owed: nothing changes (the send is admitted and
+    # reaches the requester; a recv is still refused)
+    {"k": "rep", "fam": "env", "peers": 2, "progs": [[["recv"], ["send", 51], ["recv"], ["send", 53]]],
+     "sched": [["req", 1, [0, 31]]] + [["t", 0]] * 3 + [["detach", 0]] + [["t", 0]] * 4 + [["req", 1, [0, 33]]] + [["t", 0]] * 6},
+    {"k": "rep", "fam": "env", "peers": 3, "progs": [[["recv"], ["recv"], ["sendm", 51], ["recvm"], ["send", 53]]],
+     "sched": [["req", 2, [0, 31]]] + [["t", 0]] * 3 + [["detach", 0]] + [["t", 0]] * 2 + [["detach", 1]] + [["t", 0]] * 5
+              + [["req", 2, [0, 33]]] + [["t", 0]] * 6},
     # REP: RCVTIMEO
     {"k": "rep", "fam": "env", "peers": 1, "rcvtimeo": 50, "progs": [[["recv"], ["send", 51], ["recv"], ["send", 53]]],
      "sched": [["t", 0]] * 2 + [["timeout", 0]] + [["t", 0]] * 2 + [["req", 0, [0, 31]]] + [["t", 0]] * 5},
@@ -350,6 +357,7 @@ def lenient(c, o):
     trows, deliv = split_rows(c, o)
     if len(trows) != len(c["sched"]):
         return "harness produced %d rows for %d tokens" % (len(trows), len(c["sched"]))
+    single = len(c["progs"]) == 1      # one task: no call races another, so the DUE call must be admitted as well
     if c["k"] == "req":
         a = 0  # 0: send due, 1: reply due, 2: reset
         pushed = 0
@@ -360,6 +368,10 @@ def lenient(c, o):
                 pushed += 1
             if r[0] == 0 and r[2] == 2:
                 opc, res = r[3], r[4]
+                if single and opc == 0 and res == 2 and a == 0:
+                    return "REQ: a send was refused with InvalidState although a send was due (no request outstanding)"
+                if single and opc in (1, 3) and res == 2 and a == 1:
+                    return "REQ: a recv was refused with InvalidState although a request is outstanding and its peer is connected"
                 if opc == 0 and res == 0:
                     if a == 1:
                         return "REQ: a send succeeded while a reply was due (two successful sends without a recv or a reset between them)"
@@ -406,6 +418,9 @@ def lenient(c, o):
                     return "REP: a recv succeeded while a request was pending (two successful recvs without a send between them; the request of %s is never answered)" % who
                 tag = r[5] if len(r) > 5 else 0
                 state = reqs.get(tag, "?")
+            elif single and opc in (0, 2) and res == 2 and state not in (None, "?", "??"):
+                return ("REP: a send was refused with InvalidState although the request of peer %d is pending and that peer is "
+                        "still connected (the owed reply can never be sent)" % state[0])
             elif opc in (0, 2) and res == 0:
                 if t not in taken:
                     return "REP: a send succeeded without taking a pending request"
